@@ -6,7 +6,8 @@ Prf coq/theories/C04/{Heap,Exec}.v + coq/props/C04.v   frame theorems over all c
                                                   executable model refines the relation; instantiation on Gen facts
 T3  every last-operation state x every public method / action (and interleavings on siblings):
       black box : twin runs (with / without the follow-up), before/after on the same objects, repeated observation
-                  -> columns, unoptimised SQL (DuckDB and Spark dialect, names canonicalised), rows, schema names
+                  -> columns, unoptimised SQL in the session's output dialect (shows hints; generated names canonicalised),
+                     collected rows, schema names
       white box : display names, contents AND identity of pending hint objects, last_op, statements reaching the
                   DB-API connection (proxy passed as conn=) after every step  ==  the Coq model's heap
 """
@@ -151,10 +152,11 @@ def mk_alphabet():
     add("dropDuplicates_subset", "dropDuplicates", lambda R, d, o: d.dropDuplicates([R.c0]), resolve="always")
     add("drop_duplicates", "drop_duplicates", lambda R, d, o: d.drop_duplicates())
     add("drop", "drop", lambda R, d, o: d.drop(R.c1))
-    add("dropna", "dropna", lambda R, d, o: d.dropna())
+    # dropna: copy().select(..).where(..).select(..) -- the inner where() always wraps, so hints are always resolved
+    add("dropna", "dropna", lambda R, d, o: d.dropna(), resolve="always")
     add("fillna", "fillna", lambda R, d, o: d.fillna(0))
     add("replace", "replace", lambda R, d, o: d.replace(1, 2))
-    add("na_drop", "na.drop", lambda R, d, o: d.na.drop())
+    add("na_drop", "na.drop", lambda R, d, o: d.na.drop(), resolve="always")
     add("na_fill", "na.fill", lambda R, d, o: d.na.fill(0))
     add("na_replace", "na.replace", lambda R, d, o: d.na.replace(1, 2))
     add("toDF", "toDF", lambda R, d, o: d.toDF(*[f"n{i}" for i in range(len(d.columns))]), resolve="never")
@@ -172,6 +174,8 @@ def mk_alphabet():
     add("groupBy_max", "groupBy.max", lambda R, d, o: d.groupBy(R.c0).max(R.c1))
     add("cube_count", "cube.count", lambda R, d, o: d.cube(R.c0).count())
     add("cube_agg", "cube.agg", lambda R, d, o: d.cube(R.c0, R.c1).agg(R.F.max(R.c1).alias("m")))
+    for fn_ in ("sum", "avg", "mean", "min", "max"):
+        add("cube_" + fn_, "cube." + fn_, (lambda f: lambda R, d, o: getattr(d.cube(R.c0), f)(R.c1))(fn_))
     # ---- binary
     add("join_name", "join", lambda R, d, o: d.join(o, R.c0), other="jn", join=True)
     add("join_expr", "join", lambda R, d, o: d.join(o, d[R.c0] == o["k"], "left"), other="o2", join=True)
